@@ -31,6 +31,9 @@ def regenerate(ctx):
 
 
 def replay(doc):
+    if doc.get("replay", {}).get("family") == "rewrite-new-domain":
+        from harness import c04_rewrite
+        return c04_rewrite.replay(doc)
     return K.replay(doc)
 
 
@@ -134,7 +137,9 @@ def check_result(ctx, case, entry, opts, as_ir, m2, wf_batch, stats, base=None):
     g0 = graphlit.graph_lit(_sub_inits_as_constants(case.model).graph)
     g2 = graphlit.graph_lit(_sub_inits_as_constants(m2).graph)
     im0, im2 = graphlit.imports_lit(case.model.opset_import), graphlit.imports_lit(m2.opset_import)
-    funs2 = [graphlit.function_lit(f) for f in m2.functions]
+    # every function with ITS OWN imports (a function body is serialized with the function's opset_import, not the model's)
+    funs0 = [f"({graphlit.imports_lit(f.opset_import)}, {graphlit.function_lit(f)})" for f in case.model.functions]
+    funs2 = [f"({graphlit.imports_lit(f.opset_import)}, {graphlit.function_lit(f)})" for f in m2.functions]
     sig = (g0, g2, im0, im2, tuple(funs2))
     if (g0, im0) == (g2, im2) and not funs2:
         stats["wf-skipped-unchanged-result"] += 1          # nothing to check: the result is the original graph
@@ -142,7 +147,7 @@ def check_result(ctx, case, entry, opts, as_ir, m2, wf_batch, stats, base=None):
         stats["wf-skipped-duplicate"] += 1
     else:
         wf_batch.seen.add(sig)
-        wf_batch.append((case, entry, opts, as_ir, g0, im0, g2, im2, funs2))
+        wf_batch.append((case, entry, opts, as_ir, g0, im0, g2, im2, funs2, funs0))
     # initializer-inputs: default still there, and same outputs for override values
     if case.overridable and entry in ("optimize", "optimize_ir", "fold_constants"):
         stats["overridable-runs"] += 1
@@ -453,11 +458,14 @@ def check_custom_domain(ctx, case, stats):
     fmissing = []
     for f in m2.functions:
         fimp = {o.domain for o in f.opset_import}
-        for n in f.node:
-            if n.domain not in ("", "ai.onnx"):
-                where.add("function")
-                if n.domain not in fimp:
-                    fmissing.append(f"{f.name}:{n.domain}")
+        fw = set()
+        # recursively through the If / Loop bodies of the function: they are serialized with the function's imports
+        for dname in sorted(domains(f, set(), 0, fw)):
+            where.add("function")
+            if dname not in fimp:
+                fmissing.append(f"{f.name}:{dname}")
+        if "subgraph" in fw:
+            where.add("function-subgraph")
     if fmissing:
         ctx.violation("C04:opset-import-missing:function-body",
                       f"rewrite(): function bodies use domains without an opset import in the function: {sorted(set(fmissing))[:4]}",
@@ -470,7 +478,7 @@ def check_custom_domain(ctx, case, stats):
         ctx.case(("custom-domain", tuple(sorted(where))))
     missing = sorted(d for d in used if d not in imported)
     if missing:
-        ctx.violation("C04:opset-import-missing:" + ",".join(sorted(w for w in where if w != "function")),
+        ctx.violation("C04:opset-import-missing:" + ",".join(sorted(w for w in where if not w.startswith("function"))),
                       f"rewrite(): the result uses domains {missing} without an opset import (rule fired in: {sorted(where)})",
                       K.replay_doc(case, "rewrite-custom-domain", None, False, {"missing": missing}))
         stats["violations"] += 1
@@ -494,11 +502,13 @@ def eval_wf(ctx, wf_batch, stats):
     for start in range(0, len(wf_batch), 250):
         chunk = wf_batch[start:start + 250]
         defs = []
-        for i, (_c, _e, _o, _a, g0, im0, g2, im2, funs) in enumerate(chunk):
+        for i, (_c, _e, _o, _a, g0, im0, g2, im2, funs, funs0) in enumerate(chunk):
             defs.append(f"Definition o_{i} : graph := {g0}.\nDefinition r_{i} : graph := {g2}.\n"
                         f"Definition c_{i} : bool * bool * bool * bool := "
-                        f"(wf_graphb o_{i}, wf_graphb r_{i} && forallb wf_graphb {clist(funs)}, imports_ok {im0} o_{i}, imports_ok {im2} r_{i}).\n")
-        body = "".join(defs)
+                        f"(wf_graphb o_{i} && fwf {clist(funs0)}, wf_graphb r_{i} && fwf {clist(funs)}, imports_ok {im0} o_{i} && fimp {clist(funs0)}, "
+                        f"imports_ok {im2} r_{i} && fimp {clist(funs)}).\n")
+        body = ("Definition fwf (l : list (list string * graph)) : bool := forallb (fun p => wf_graphb (snd p)) l.\n"
+                "Definition fimp (l : list (list string * graph)) : bool := forallb (fun p => imports_ok (fst p) (snd p)) l.\n") + "".join(defs)
         body += ("Fixpoint bad (k : nat) (i : nat) (l : list (bool * bool * bool * bool)) : list nat := match l with [] => [] | (a, b, c, d) :: t => "
                  "(if match k with O => a && negb b | _ => c && negb d end then [i] else []) ++ bad k (S i) t end.\n")
         lst = clist([f"c_{i}" for i in range(len(chunk))])
@@ -567,7 +577,7 @@ def run(ctx):
     # decision-trace correspondence with initializer-inputs in the generator
     n_trace = 40 if quick else 300
     import itertools
-    tstats = K.trace_stream(ctx, rng, itertools.chain(K.alias_stream(rng), K.dag_stream(rng, n_trace, overridable_every=2, start=5000)), "C04")
+    tstats = K.trace_stream(ctx, rng, itertools.chain(K.alias_stream(rng), K.fold_family_stream(rng), K.dag_stream(rng, n_trace, overridable_every=2, start=5000)), "C04")
     agree = tstats["agree"] + tstats["agree(outside-theorem-side-conditions)"]
     ctx.obligation("correspondence fold_constants (models with overridable initializer-inputs): decisions and resulting graph = Opt/Fold.v",
                    tstats["disagree"] == 0 and agree > 0, f"{dict(tstats)}")
@@ -636,9 +646,18 @@ def run(ctx):
                     if kind in first_bad:
                         pstats[f"{kind}-invalidity-of:{first_bad[kind][1]}:repaired-by:{pname}"] += 1
                         del first_bad[kind]
-        if last is not None and not _checker_fails(c.model):
-            for kind, (k, pname) in first_bad.items():
+        if last is not None and first_bad and not _checker_fails(c.model):
+            # the result of the ENTRY POINT is what the property is about: optimize_ir restores the declared output types after the last
+            # pass (outside every pass), so the verdict is taken on its real final model, not on the output of the last pass
+            try:
+                final = R.apply_entry("optimize_ir", c.model, opts, True)
+            except Exception:
+                final = last
+            for kind, (k, pname) in list(first_bad.items()):
                 still_bad = (lambda mm: _checker_fails(mm)) if kind == "checker" else (lambda mm: R.signature_diff(c.model, mm) is not None)
+                if not still_bad(final):
+                    pstats[f"{kind}-invalidity-of:{pname}:repaired-by:optimize_ir-epilogue"] += 1
+                    continue
                 kc = ["C04" + x[3:] for x in K.known_class_by_variant(c, base, "optimize_ir", opts, True, still_bad)] if base is not None else []
                 if kc:
                     # a known defect of the folder (an equivalent variant of the model that avoids it stays valid), seen per pass
@@ -694,8 +713,30 @@ def run(ctx):
         one_case(c, [("optimize", None, False), ("fold_constants", None, False), ("rewrite", None, True)], base)
     eval_wf(ctx, wf_batch, stats)
 
+    # rewrite / RewriteRuleSet.apply_to_model / RewritePass with rules that introduce a domain, functions NOT inlined: imports per
+    # serialized container (model, every function), matches in the main graph / functions / their If and Loop bodies
+    from harness import c04_rewrite
+    rw = c04_rewrite.run_family(ctx, quick)
+    ctx.obligation("rewrite with rules introducing a new domain (functions not inlined; matches in main graph, function bodies, If / Loop bodies "
+                   "nested up to 3 times): imports_ok (Graph/Wf.v) in Coq for the model and for every function, checker, signature, onnxruntime",
+                   rw["fired"] >= 40 and rw["coq-evaluated"] == rw["fired"] and rw["fired-in:function-subgraph"] >= 10 and rw["fired-in:main-subgraph"] >= 5,
+                   f"{dict(rw)}")
+
+    # Props/C04_refs.v: RemoveUnusedFunctions / RemoveUnusedOpsets / InlinePass models against the real passes (hand-built function hosts)
+    from harness import c03_inline
+    from harness import c03_passes as _P
+    itie = c03_inline.InlineTie(ctx, "C04")
+    for label, hm, hfeeds in c03_inline.function_hosts(rng, quick):
+        itie.add_model(label, hm, hfeeds)
+        try:
+            itie.add_pass_records(label, _P.observe(hm, (1, True, False, True, 8192, 512 * 512)))
+        except Exception:
+            pass
+    ctx.cover(inline_tie=dict(itie.finish()))
+
     # the witness of C04_unguarded_initializer_input_folded_refuted on the real code (If on an overridable condition)
     replay_witness(ctx, stats)
+    inline_returns_formal_witness(ctx, stats)
 
     if stats["valid-dag-models"] < n_dag // 2:
         ctx.tie_broken("harness", "generator-degenerate", f"only {stats['valid-dag-models']} valid DAG models of {n_dag}: {dict(discards)}")
@@ -720,6 +761,7 @@ def run(ctx):
                 pstats[f"intermediate-wf_graphb-false-after:{pname}"] += 1
     ctx.obligation("validity after every pass of the real pipeline: no checker / signature invalidity survives to the final model (known findings excepted)",
                    pstats["pipelines-observed"] > 0, f"{dict(pstats)}")
+    ctx.cover(rewrite_new_domain=dict(rw))
     ctx.cover(trace=dict(tstats), checks=dict(stats), per_pass_validity=dict(pstats), discarded=dict(discards), exception_kinds=dict(exc_kinds))
     if ctx.tier == "thorough":
         ctx.coqchk(["Props.C04"])
@@ -757,4 +799,42 @@ def replay_witness(ctx, stats):
     inits2 = {i.name for i in m2.graph.initializer}
     if "c" in {i.name for i in m2.graph.input} and "c" not in inits2:
         ctx.violation("C04:initializer-input:default-removed", "the default of the overridable condition was removed", K.replay_doc(case, "fold_constants", None, False))
+        stats["violations"] += 1
+
+
+def inline_returns_formal_witness(ctx, stats):
+    """A function that returns one of its formals, called on a graph input: the class the InlinePass model refuses (Opt/InlineFn.v:
+    site_okb wants every returned value to be defined by a body node).  onnx_ir's replace_nodes_and_values gives the value returned
+    for an output the NAME of that output - here a value of the caller, the graph input."""
+    import onnx.parser
+    text = """
+<ir_version: 8, opset_import: [ "" : 18, "local" : 1]>
+agraph (float[2] x) => (float[2] z, float[2] w)
+{
+    z, w = local.f (x)
+}
+<domain: "local", opset_import: [ "" : 18]>
+f (a) => (r, a)
+{
+    r = Neg (a)
+}
+"""
+    m = onnx.parser.parse_model(text)
+    onnx.checker.check_model(m, full_check=True)
+    feeds = [{"x": np.array([1, -2], dtype=np.float32)}]
+    s0, o0 = R.run_ref(m, feeds)          # onnxruntime does not load a function whose output is one of its inputs; onnx.reference runs it
+    case = G.Case(m, feeds, ["witness:function-returns-its-input"], [True, True], "witness", "witness-inline-returns-formal")
+    try:
+        m2 = R.apply_entry("optimize", m)
+    except Exception as e:
+        t, site, msg = R.root_cause(e)
+        ctx.violation(f"C04:raises:{t}:{site}", f"optimize raised on the witness: {msg}", K.replay_doc(case, "optimize", None, False))
+        return
+    d = R.signature_diff(m, m2)
+    stats["witness-inline-returns-formal:signature-kept"] = int(d is None)
+    ctx.case(("witness-inline-returns-formal", d is None))
+    if s0 == "ok" and d is not None:
+        ctx.violation("C04:inline:function-returns-its-input:graph-input-renamed",
+                      f"optimize(): {d[1]} (a model-local function returns its formal input, the call sits on a graph input; the original runs on "
+                      "onnx.reference)", K.replay_doc(case, "optimize", None, False, {"signature": d[1]}))
         stats["violations"] += 1
